@@ -1029,7 +1029,7 @@ def assemble(unit, mode='verify', vacuity=False, seen=None, top=True, only_props
                 if blk.opts.get('traitfn'):
                     # a clone cannot live in the trait impl: defer it to an inherent impl
                     segs = rsitems.split_path(fpath)
-                    im = sf.find(segs[0])
+                    im = sf.find(segs[0].replace('::', '%%'))
                     mh = re.match(r'impl\s*(<.*?>)?\s*[A-Za-z_:]+(<.*>)?\s+for\s+(.*)$', re.sub(r'\s+', ' ', im.name))
                     gens = mh.group(1) or ''
                     selfty = mh.group(3)
